@@ -65,7 +65,7 @@ def gen_val(ty):
     return {"u8": "s.u8()", "i8": "s.i8()", "bool": "s.bool()", "u16": "s.u16()", "F": "F(s.u8())", "Po": "Po(s.u8())", "&'static u8": "&REFS[s.below(2) as usize]",
             "[u8; 2]": "[s.u8(), s.u8()]", "core::marker::PhantomData<u16>": "core::marker::PhantomData", "(u8, i8)": "(s.u8(), s.i8())",
             "(F, F)": "(F(s.u8()), F(s.u8()))"}.get(ty) or \
-        {"A": "Gen::gen(s)", "&'a u8": "&REFS[s.below(2) as usize]", "[u8; N]": "[s.u8(), s.u8()]", "core::marker::PhantomData<A>": "core::marker::PhantomData"}[ty]
+        {"A": "Gen::gen(s)", "&'a u8": "&REFS[s.below(2) as usize]", "&'a A": "&REFS[s.below(2) as usize]", "[u8; N]": "[s.u8(), s.u8()]", "core::marker::PhantomData<A>": "core::marker::PhantomData"}[ty]
 
 
 def debug_variant(sh):
@@ -154,6 +154,7 @@ def shapes(tier, rnd):
     out.append(S("non-exhaustive", "named", [("a", "u8")], attrs=["#[non_exhaustive]"]))
     out.append(S("lifetime", "named", [("r", "&'a u8"), ("b", "u8")], generics_decl="<'a>", generics_use="<'static>", traits=[t for t in ALL if t != "Default"]))
     out.append(S("type-param", "named", [("a", "A"), ("p", "core::marker::PhantomData<A>")], generics_decl="<A>", generics_use="<u8>"))
+    out.append(S("ref-to-type-param", "named", [("r", "&'a A"), ("b", "u8")], generics_decl="<'a, A>", generics_use="<'static, u8>", traits=[t for t in ALL if t != "Default"]))
     out.append(S("type-param-default-where", "tuple", [(None, "A"), (None, "u8")], generics_decl="<A: Copy = u8>", generics_use="<u8>", where="where A: PartialEq"))
     nodef = [t for t in ALL if t != "Default"]  # `[u8; N]: Default` does not hold for a generic N (the std derive fails in the same way)
     out.append(S("const-param", "named", [("arr", "[u8; N]"), ("b", "bool")], generics_decl="<const N: usize>", generics_use="<2>", traits=nodef))
